@@ -763,6 +763,8 @@ fragment F on T20 { f3 f1 { f3 } }`, `{ f1 { f3 f4 { f3 } } }`, `mutation M { f1
 		`{ ...A } fragment A on Query { f1 { f3 } ... on Query { ...A } }`, `{f1{...F}} fragment F on T20 { f3 ... { ...F } }`,
 		// an input type bound to a Go struct: nulls for the field and inside its lists, numbers for strings
 		`{ f2(a1: 1, a5: {tags: ["x", null], n: 2, nums: [1, null]}) }`, `{ f2(a1: 1, a5: {tags: null, n: null}) }`, `query($v: T42 = {tags: [null]}) { f2(a1: 1, a5: $v) }`, `{ f2(a1: 1, a5: {tags: [1], nums: ["x"], zzz: 1}) }`,
+		// a variable whose default is the variable itself, alone and inside an input object, through a second variable
+		`query Q($a: Int = $a) { f2(a1: $a) }`, `query Q($a: T40 = {a1: 1, a2: [$a]}) { f2(a1: 1, a3: $a) }`, `query Q($a: Int = $b, $b: Int = $a) { f2(a1: $a) }`,
 		// a list under a key the input type does not declare
 		`{ f2(a1: 1, a3: {a1: 1, bogus: [1, 2]}) }`, `{ f2(a1: 1, a3: {a1: 1, extra: [[$v1]]}) }`, `{ f2(a1: 1, a4: {zzz: {k: [1, {j: []}]}}) }`,
 		"{ f2(a1: 1, a2: [\"😀\", \"𐍈\"]) f1 { f3 } }", "query($v: [String] = [\"😀\"]) { f2(a1: 1, a2: $v) }",
